@@ -92,6 +92,6 @@ Export == stage = 2 =>
   IN PrintT(<<"VPST", ToJson([fam |-> f, x |-> inst.x, w |-> inst.w, a |-> inst.a, c |-> inst.c, r0 |-> inst.r0,
         y |-> Yv, phi |-> Ph, dphi |-> [k \in 1..f.P |-> DPhi(f, inst.x, inst.a, k)],
         nu |-> out.nu, rr |-> out.rr, detH |-> out.detH, adj |-> out.adj, quad |-> out.quad, rw |-> out.rw,
-        tq |-> TQ(out.nu), pnum |-> PNum, pfine |-> PFine, tqfine |-> TQFine(out.nu),
+        tq |-> TQ(out.nu), pnum |-> PNum, pfine |-> PFine, tqfine |-> TQFine(out.nu), pfine2 |-> PFine2, tqfine2 |-> TQFine2(out.nu),
         repl |-> SetToSeq({[k |-> K, nu |-> ReplNu(f, inst.x, K), tq |-> TQ(ReplNu(f, inst.x, K))] : K \in ReplChoices(f, inst.x)})])>>)
 =======================================================================
